@@ -217,6 +217,47 @@ def directed_new_scm_over_user_files():
     finally:
         shutil.rmtree(base, ignore_errors=True)
 
+def directed_clean_unused():
+    """non-forced `bob clean -s` over git source workspaces that became unused: whatever holds user work (untracked file, modified
+    tracked file, unpushed commit on the configured branch or on a side branch, stash-free detached work) survives, the pristine one goes"""
+    import subprocess
+    from replay import projlib as P
+    base = tempfile.mkdtemp(prefix='c12c-'); log = []
+    env = {'GIT_CONFIG_NOSYSTEM': '1', 'GIT_AUTHOR_NAME': 'u', 'GIT_AUTHOR_EMAIL': 'u@example.com', 'GIT_COMMITTER_NAME': 'u', 'GIT_COMMITTER_EMAIL': 'u@example.com', 'HOME': base}
+    def git(cwd, *a):
+        e = dict(os.environ); e.update(env); subprocess.run(['git', *a], cwd=cwd, check=True, stdout=subprocess.DEVNULL, stderr=subprocess.DEVNULL, env=e)
+    try:
+        up = os.path.join(base, 'up'); os.makedirs(up); git(up, 'init', '-q', '-b', 'master')
+        open(os.path.join(up, 'f.txt'), 'w').write('v1\n'); git(up, 'add', 'f.txt'); git(up, 'commit', '-q', '-m', 'c1')
+        kinds = ['untracked', 'modified', 'commit-on-branch', 'commit-on-side-branch', 'pristine']
+        R = {'r0': {'root': True, 'depends': ['p-' + k for k in kinds], 'buildScript': 'true\n', 'packageScript': 'true\n'}}
+        for k in kinds: R['p-' + k] = {'checkoutSCM': {'scm': 'git', 'url': 'file://' + up, 'branch': 'master'}, 'buildScript': 'cp "$1"/f.txt .\n', 'packageScript': 'cp "$1"/f.txt .\n'}
+        p = P.Project(root=os.path.join(base, 'proj')); p.env.update(env); p.write({'recipes': R, 'config': {}})
+        rc, out = p.bob('dev', 'r0'); log.append('five git packages built')
+        if rc != 0: return None, ['(setup: %s)' % out[-200:]]
+        ws = {k: os.path.join(p.dir, 'dev/src/p-%s/1/workspace' % k) for k in kinds}
+        if not all(os.path.isdir(os.path.join(w, '.git')) for w in ws.values()): return None, ['(setup: workspaces not found)']
+        open(os.path.join(ws['untracked'], 'notes.txt'), 'w').write('user notes\n')
+        open(os.path.join(ws['modified'], 'f.txt'), 'a').write('user edit\n')
+        w = ws['commit-on-branch']; open(os.path.join(w, 'f.txt'), 'a').write('committed\n'); git(w, 'commit', '-q', '-am', 'user commit')
+        w = ws['commit-on-side-branch']; git(w, 'checkout', '-q', '-b', 'work'); open(os.path.join(w, 'f.txt'), 'a').write('side\n'); git(w, 'commit', '-q', '-am', 'side commit'); git(w, 'checkout', '-q', 'master')
+        log.append('user work: untracked file / modified file / commit on master / commit on a side branch / nothing')
+        p.write({'recipes': {'r0': {'root': True, 'buildScript': 'true\n', 'packageScript': 'true\n'}}, 'config': {}})
+        rc, out = p.bob('dev', 'r0'); log.append('all five packages removed from the recipes')
+        rc, out = p.bob('clean', '--dry-run', '-s'); log.append('bob clean --dry-run -s')
+        if not all(os.path.isdir(w) for w in ws.values()): return {'kind': 'dry-run-deleted', 'history': log}, log
+        rc, out = p.bob('clean', '-s'); log.append('bob clean -s (not forced)')
+        attic = [os.path.join(dp, d) for dp, ds, fs in os.walk(p.dir) for d in ds if 'attic' in d]
+        for k in kinds[:-1]:
+            if not os.path.isdir(ws[k]) and not attic:
+                return {'kind': 'user-work-destroyed-by-non-forced-clean', 'user_work': k, 'workspace': os.path.relpath(ws[k], p.dir), 'history': log, 'output': out[-300:]}, log
+        if os.path.isdir(ws['pristine']): return {'kind': 'clean-kept-unused-source-directory-although-requested', 'history': log}, log
+        return None, log
+    except Exception as ex:
+        return None, ['harness problem: %r' % (ex,)]
+    finally:
+        shutil.rmtree(base, ignore_errors=True)
+
 def scm_set_changes():
     """SCMs removed from / moved inside / added back to a checkout: an untouched workspace equals a fresh checkout (shared with C01)"""
     from replay import C01
@@ -237,7 +278,7 @@ def replay(rep):
     n = 40 if thorough else 10; steps = 8 if thorough else 6
     tried = 0; distinct = set(); samples = []; problems = 0
     with cf.ThreadPoolExecutor(max_workers=8) as ex:
-        futs = [ex.submit(directed_branch_switch), ex.submit(directed_new_scm_over_user_files), ex.submit(scm_set_changes), ex.submit(url_switch)] + [ex.submit(one_case, seed * 1000 + i, steps) for i in range(n)]
+        futs = [ex.submit(directed_branch_switch), ex.submit(directed_new_scm_over_user_files), ex.submit(scm_set_changes), ex.submit(url_switch), ex.submit(directed_clean_unused)] + [ex.submit(one_case, seed * 1000 + i, steps) for i in range(n)]
         for f in cf.as_completed(futs):
             w, log = f.result(); tried += 1
             if log and (str(log[-1]).startswith('harness problem') or str(log[-1]).startswith('(setup')): problems += 1; samples.append({'problem': log[-1]}) if len(samples) < 3 else None; continue
@@ -246,5 +287,5 @@ def replay(rep):
             if w is not None: return {'reproduced': True, 'tried': tried, 'witness': w}
     if problems > tried // 2: return {'reproduced': None, 'detail': 'harness problems in %d of %d cases: %s' % (problems, tried, samples[:2])}
     return {'reproduced': False, 'tried': tried, 'distinct': len(distinct), 'samples': samples,
-            'bound': 'directed branch-switch scenario (3 variants), new SCM over a directory with user files (git, import), SCM set changes (remove/move/if/add back), url SCM url changes + %d generated histories of %d operations over one git upstream (2 branches, 2 tags): recipe SCM edits, upstream commits, 5 kinds of user work, bob dev / --clean-checkout / clean -s; url/import/svn SCMs and nested SCMs are not generated' % (n, steps),
+            'bound': 'directed branch-switch scenario (3 variants), new SCM over a directory with user files (git, import), SCM set changes (remove/move/if/add back), url SCM url changes, non-forced clean -s over unused git workspaces with 4 kinds of user work + %d generated histories of %d operations over one git upstream (2 branches, 2 tags): recipe SCM edits, upstream commits, 5 kinds of user work, bob dev / --clean-checkout / clean -s; url/import/svn SCMs and nested SCMs are not generated' % (n, steps),
             'detail': 'every user commit stayed reachable from a ref and every user file survived (in place or attic); untouched workspaces equalled fresh checkouts'}
